@@ -168,13 +168,16 @@ impl Vm {
     pub uninterp spec fn slot(&self, depth: int) -> Value;
     #[verifier::external_body]
     pub fn peek(&self, depth: usize) -> (r: Value) ensures r == self.slot(depth as int) { unimplemented!() }
+    // the string slices handed to the intern table so far (ghost log): what a string-producing native RETURNS is the
+    // string made from the last one (C11: the intern table makes the object with exactly those bytes)
+    pub uninterp spec fn interned(&self) -> Seq<StrSlice>;
     #[verifier::external_body]
-    pub fn pop(&mut self) -> (r: Value) { unimplemented!() }
+    pub fn pop(&mut self) -> (r: Value) ensures final(self).interned() == old(self).interned() { unimplemented!() }
     #[verifier::external_body]
-    pub fn poke(&mut self, depth: usize, value: Value) { unimplemented!() }
+    pub fn poke(&mut self, depth: usize, value: Value) ensures final(self).interned() == old(self).interned() { unimplemented!() }
     #[verifier::external_body]
     pub fn new_gc_obj_string(&mut self, data: StrSlice) -> (r: Gc<ObjString>)
-        ensures forall|d: int| final(self).slot(d) == old(self).slot(d)
+        ensures forall|d: int| final(self).slot(d) == old(self).slot(d), final(self).interned() == old(self).interned().push(data)
     { unimplemented!() }
 
     //@fn file=yarel/src/vm.rs path=Vm::string_get_item ret=r props=C13,C02
@@ -182,7 +185,12 @@ impl Vm {
     //@  subst ".try_as_obj_string() .expect(\"Expected ObjString.\")" => ".try_as_obj_string().unwrap()"
     //@  requires old(self).slot(1) is ObjString
     //@  ensures r matches Err(e) ==> e.kind is IndexError || e.kind is TypeError || e.kind is ValueError
+    //@  ensures @a_string_range_selects_exactly_the_bytes_between_its_normalised_bounds (r is Ok && old(self).slot(0) is ObjRange) ==> ({ let st = old(self).slot(1)->ObjString_0.obj(); let rg = old(self).slot(0)->ObjRange_0.obj(); let l = st.blen() as int; let b = norm(rg.begin as int, l); let e0 = norm(rg.end as int, l); let e = if e0 >= b { e0 } else { b }; final(self).interned() == old(self).interned().push(StrSlice { src: st, a: b, b: e }) && st.is_cb(b) && st.is_cb(e) })
+    //@  ensures @a_string_range_that_starts_or_ends_inside_a_character_is_an_index_error_empty_or_not (old(self).slot(0) is ObjRange) ==> ({ let st = old(self).slot(1)->ObjString_0.obj(); let rg = old(self).slot(0)->ObjRange_0.obj(); let l = st.blen() as int; let b = norm(rg.begin as int, l); let e0 = norm(rg.end as int, l); let e = if e0 >= b { e0 } else { b }; (!st.is_cb(b) || !st.is_cb(e)) ==> (r matches Err(er) && er.kind is IndexError) && final(self).interned() == old(self).interned() })
+    //@  ensures @an_integer_index_selects_exactly_the_character_that_starts_there (r is Ok && old(self).slot(0) is Number) ==> ({ let st = old(self).slot(1)->ObjString_0.obj(); let l = st.blen() as int; value_int(old(self).slot(0)) matches Some(n) && final(self).interned().len() == old(self).interned().len() + 1 && ({ let sl = final(self).interned().last(); sl.src == st && sl.a == norm(n, l) && 0 <= sl.a < sl.b <= l && st.is_cb(sl.a) && st.is_cb(sl.b) && (forall|j: int| sl.a < j < sl.b ==> !st.is_cb(j)) && final(self).interned().drop_last() == old(self).interned() }) })
+    //@  ensures @an_integer_index_inside_a_character_is_an_index_error (old(self).slot(0) is Number && value_int(old(self).slot(0)) is Some) ==> ({ let st = old(self).slot(1)->ObjString_0.obj(); let l = st.blen() as int; let k = norm(value_int(old(self).slot(0))->0, l); (!(0 <= k < l) || !st.is_cb(k)) ==> (r matches Err(er) && er.kind is IndexError) })
     //@  at body.start broadcast use axiom_cb; broadcast use axiom_value_int_number; broadcast use axiom_bytes_len; broadcast use axiom_utf8_char;
+    //@  loop 0 invariant self.interned() == old(self).interned(), forall|j: int| begin < j < end ==> !string.obj().is_cb(j)
     //@  loop 0 invariant begin < end <= string.obj().blen(), string.obj().blen() <= isize::MAX, string.obj().is_cb(begin as int), begin < string.obj().blen()
     //@  loop 0 decreases string.obj().blen() - end
     //@  at loop0.start proof { axiom_cb_ends(string.obj()); }
